@@ -14,6 +14,8 @@ pub enum Hint {
     /// an honest inexact hint whose upper bound is attained: `(0, Some(elements left))`
     Upper,
     Unbounded,
+    /// std's honest hint of an endless iterator (`n..`, `repeat`, `cycle`): `(usize::MAX, None)`
+    MaxNone,
     /// ill-formed: the lower bound exceeds the upper one, `(left + 2, Some(left - 1))` (std: "a buggy iterator may yield … it is not an error")
     Inverted,
     /// inexact; a call of `size_hint` by a thread of the case (the crate makes none) panics once every element was produced
@@ -100,6 +102,8 @@ pub struct Case {
     /// `Clone::clone` of an element is a scheduling point of its own
     pub clonepoint: bool,
     pub rawskip: bool,
+    /// `viafrom`: the iterator is built with the `From` conversion (`ConIterOfX::from(source)`) instead of `into_con_iter`
+    pub viafrom: bool,
     /// `fat <bytes>`: elements are <bytes> large (128 or 65536; slice, vec, array, iter; `copied()` over a slice)
     pub fat: usize,
     /// `nested`: kind iter: the iterator under test wraps `values()` of an inner concurrent iterator over the probe
@@ -237,6 +241,7 @@ fn parse_src(toks: &[&str], ln: usize) -> Result<(Src, usize), String> {
             "unbounded" => Ok(Hint::Unbounded),
             "panicend" => Ok(Hint::PanicEnd),
             "inverted" => Ok(Hint::Inverted),
+            "maxnone" => Ok(Hint::MaxNone),
             h if h.starts_with("fixed") => h[5..]
                 .parse::<usize>()
                 .map(Hint::Fixed)
@@ -413,6 +418,7 @@ struct Partial {
     inpanic: Vec<usize>,
     clonepoint: bool,
     rawskip: bool,
+    viafrom: bool,
     fat: usize,
     nested: bool,
     reenter: Option<usize>,
@@ -479,6 +485,7 @@ fn finish(p: Partial) -> Result<Case, String> {
         inpanic: p.inpanic,
         clonepoint: p.clonepoint,
         rawskip: p.rawskip,
+        viafrom: p.viafrom,
         fat: p.fat,
         nested: p.nested,
         reenter: p.reenter,
@@ -569,6 +576,9 @@ pub fn parse_cases(text: &str) -> Result<Vec<Case>, String> {
             }
             "rawskip" => {
                 p.rawskip = true;
+            }
+            "viafrom" => {
+                p.viafrom = true;
             }
             "fat" => {
                 let k = toks
